@@ -18,11 +18,18 @@ SIZES = [1, 2, 127, 128, 129, 143, 144, 145, 1000, 31999, 32000, 32001, 65536]
 
 def plan(tier):
     if tier == "quick":
-        return [("debug", 16, dict(n=14, maxsize=120 << 10, strace=0)), ("release", 4, dict(n=8, maxsize=120 << 10, strace=0))]
+        return [("debug", 16, dict(n=40, maxsize=120 << 10, strace=0)), ("release", 4, dict(n=20, maxsize=120 << 10, strace=0))]
     return [("debug", 16, dict(n=300, maxsize=300 << 10, strace=6)), ("release", 8, dict(n=150, maxsize=300 << 10, strace=0)), ("asan", 4, dict(n=25, maxsize=64 << 10, strace=0))]
 
 
+ODD_NAMES = ["notes..txt", "v1..2", "a..b", "...x", "x...", ".hidden", "..data", "data..", "name with space", " lead", "UPPER.BIN", "data", "data-old", "data.old", "data_old",
+             "d.old", "x~", "#hash", "a+b", "[br]", "(p)", "semi;colon", "quote'", "amp&", "eq=", "at@", "comma,", "percent%41", "dollar$HOME", "back`tick", "caret^", "excl!", "tab\tname",
+             "0", "-dash", "--", "con", "nul", "x" * 200]
+
+
 def rname(rng):
+    if rng.random() < 0.15:
+        return rng.choice(ODD_NAMES)
     return "".join(rng.choice("abcdefghijklmnopqrstuvwxyzABC0123456789_-.") for _ in range(rng.randint(1, 12))).strip(".") or "f"
 
 
